@@ -1336,7 +1336,11 @@ func (p Patch) ApplyIndentWithOptions(doc []byte, indent string, options *ApplyO
 	}
 
 	var buf bytes.Buffer
-	json.Indent(&buf, data, "", indent)
+	if err := json.Indent(&buf, data, "", indent); err != nil {
+		// Indent truncates what it wrote before it reports an error:
+		// do not hand that back as the result.
+		return nil, err
+	}
 	return buf.Bytes(), nil
 }
 
